@@ -142,6 +142,13 @@ TARGETED = [
     (PROTO + "def c = <*_proto_ = a*>; c->count += 1; [c->count, a->count, p->count]", "[1, 0, 0]"),
     ("def m = <<<'k' => 1>>>; def n = m; n['k'] += 1; [m, n]", "[<<<'k' => 2>>>, <<<'k' => 2>>>]"),
     ("def collect(x, acc = []) do append(acc, x); acc end; [collect(1), collect(2)]", "[[1], [2]]"),
+    ("def l = [1]; def [p, q] = l; [l, p, q]", "[[1], 1, NULL]"),
+    ("def l = [1]; def p = 0; def q = 0; def r = 0; [p, q, r] = l; [l, p, q, r]", "[[1], 1, NULL, NULL]"),
+    ("def s = <<1>>; def [p, q] = s; [s, p, q]", "[<<1>>, 1, NULL]"),
+    ("def l = [1]; def s = << l >>; append(l, 2); [s, l]", "[<<[1, 2]>>, [1, 2]]"),
+    ("def l = [1]; def s = <<>>; append(s, l); for e in s do append(e, 9) end; [s, l]", "[<<[1, 9]>>, [1, 9]]"),
+    ("def m = <<<1 => 2>>>; def s = set([m]); m[5] = 6; [s, m]", "[<< <<<1 => 2, 5 => 6>>> >>, <<<1 => 2, 5 => 6>>>]"),
+    ("def inner = <<1>>; def outer = << inner >>; append(inner, 2); string(outer)", "'<< <<1, 2>> >>'"),
     ("def tally(k, m = <<<>>>) do m[k] = 1; m end; [tally('a'), tally('b')]", "[<<<'a' => 1>>>, <<<'b' => 1>>>]"),
     ("def grow(s = <<>>, o = <**>, l = [0, 0]) do append(s, 1); o->n = 1; l[0] += 1; [s, o, l] end; grow(); grow()", "[<<1>>, <*n=1*>, [1, 0]]"),
     ("def mk() fn(x, acc = [0]) do append(acc, x); acc end; def f = mk(); def g = mk(); [f(1), g(2), f(3)]", "[[0, 1], [0, 2], [0, 3]]"),
